@@ -21,6 +21,7 @@ import (
 	"errors"
 	"fmt"
 	"io"
+	"math"
 	"math/rand/v2"
 	"os"
 	"regexp"
@@ -56,6 +57,9 @@ func (l *vLog) emit(ev string, kv ...any) {
 	b, _ := json.Marshal(m)
 	l.w.Write(b)
 	l.w.WriteByte('\n')
+	if ev == "reset" || ev == "step" || ev == "final" || ev == "quiesce1" {
+		l.w.Flush() // a crash of the process must not lose the scenario in flight
+	}
 }
 
 // ---------------------------------------------------------------- scripted transport
@@ -281,6 +285,9 @@ type vScenario struct {
 	Gated  bool            `json:"gated"`
 	Faults map[string]string `json:"faults"` // auto mode: write number (after the handshake) -> outcome
 	Steps  [][]any         `json:"steps"`
+	// RawInit (server side only): no handshake is performed; the script delivers `initialize` itself
+	// (step "init") and its handling is gated like any other handler (request tag "init").
+	RawInit bool `json:"rawinit"`
 }
 
 type vCallState struct {
@@ -430,11 +437,25 @@ func (r *vRun) setup(ctx context.Context) error {
 				}
 				return vText(a.R), nil
 			})
+		r.srv.AddReceivingMiddleware(func(next MethodHandler) MethodHandler {
+			return func(ctx context.Context, method string, req Request) (Result, error) {
+				if method == "initialize" && r.sc.RawInit {
+					// a slow, stubborn handler: it does not look at its context
+					r.log.emit("h.start", "r", "init", "method", method)
+					<-r.gate("init")
+					r.log.emit("h.end", "r", "init", "outcome", "ok")
+				}
+				return next(ctx, method, req)
+			}
+		})
 		ss, err := r.srv.Connect(ctx, r.conn, nil)
 		if err != nil {
 			return err
 		}
 		r.ss = ss
+		if r.sc.RawInit {
+			break
+		}
 		id, _ := jsonrpc2.MakeID(float64(900001))
 		r.conn.rd <- vRead{msg: &jsonrpc.Request{ID: id, Method: "initialize", Params: json.RawMessage(
 			`{"protocolVersion":"2025-06-18","capabilities":{"roots":{"listChanged":true},"sampling":{}},"clientInfo":{"name":"vpeer","version":"1"}}`)}}
@@ -484,6 +505,11 @@ func (r *vRun) startCall(k string) {
 	r.log.emit("call.begin", "k", k)
 	go func() {
 		defer close(st.done)
+		defer func() {
+			if p := recover(); p != nil {
+				r.log.emit("panic", "msg", fmt.Sprint(p), "where", "call "+k)
+			}
+		}()
 		var tag string
 		var err error
 		if r.cs != nil {
@@ -634,10 +660,30 @@ func (r *vRun) step(st []any) {
 			r.log.emit("rd.deliver", "kind", "notif", "id", "", "r", tag, "dup", false)
 		}
 		r.conn.rd <- vRead{msg: msg, desc: []any{"kind", kind, "k", "", "r", tag}}
+	case "init":
+		if r.ss == nil {
+			applied = false
+			break
+		}
+		id, _ := jsonrpc2.MakeID(float64(900001))
+		r.mu.Lock()
+		r.reqID["init"] = 900001
+		r.mu.Unlock()
+		r.log.emit("rd.deliver", "kind", "init", "id", "900001", "r", "init", "dup", false)
+		r.conn.rd <- vRead{msg: &jsonrpc.Request{ID: id, Method: "initialize", Params: json.RawMessage(
+			`{"protocolVersion":"2025-06-18","capabilities":{"roots":{"listChanged":true}},"clientInfo":{"name":"vpeer","version":"1"}}`)},
+			desc: []any{"kind", "init", "k", "", "r", "init"}}
+	case "inited":
+		r.log.emit("rd.deliver", "kind", "notif", "id", "", "r", "inited", "dup", false)
+		r.conn.rd <- vRead{msg: &jsonrpc.Request{Method: "notifications/initialized", Params: json.RawMessage(`{}`)},
+			desc: []any{"kind", "notif", "k", "", "r", "inited"}}
 	case "pcancel":
 		var wid int64 = 666000
 		if n, err := strconv.Atoi(strings.TrimLeft(arg(1), "rd")); err == nil {
 			wid = int64(n)
+		}
+		if arg(1) == "init" {
+			wid = 900001
 		}
 		r.log.emit("rd.deliver", "kind", "cancel", "id", fmt.Sprint(wid), "r", arg(1), "dup", false)
 		r.conn.rd <- vRead{msg: &jsonrpc.Request{Method: "notifications/cancelled", Params: json.RawMessage(fmt.Sprintf(`{"requestId":%d,"reason":"verif"}`, wid))},
@@ -697,6 +743,20 @@ func (r *vRun) step(st []any) {
 				err = r.ss.NotifyProgress(context.Background(), p)
 			}
 			r.log.emit("notify.end", "n", n, "err", err != nil)
+		}()
+	case "notifybad":
+		// an outgoing notification whose parameters cannot be encoded (NaN): it must fail without leaving anything behind
+		n := arg(1)
+		r.log.emit("notifybad.begin", "n", n)
+		go func() {
+			var err error
+			p := &ProgressNotificationParams{ProgressToken: "tok", Progress: math.NaN(), Message: n}
+			if r.cs != nil {
+				err = r.cs.NotifyProgress(context.Background(), p)
+			} else {
+				err = r.ss.NotifyProgress(context.Background(), p)
+			}
+			r.log.emit("notifybad.end", "n", n, "err", err != nil)
 		}()
 	case "sleep":
 		d, _ := strconv.ParseFloat(arg(1), 64)
@@ -941,7 +1001,11 @@ func vRandomScenario(rnd *rand.Rand, i int) *vScenario {
 		case k < 24 && sc.Gated:
 			sc.Steps = append(sc.Steps, []any{"wret", "any", []string{"ok", "ok", "ok", "broken", "rejected", "stall"}[rnd.IntN(6)]})
 		case k < 25:
-			sc.Steps = append(sc.Steps, []any{"sleep", "6"})
+			if rnd.IntN(3) == 0 {
+				sc.Steps = append(sc.Steps, []any{"notifybad", fmt.Sprintf("b%d", len(sc.Steps))})
+			} else {
+				sc.Steps = append(sc.Steps, []any{"sleep", "6"})
+			}
 		default:
 			if sc.Gated {
 				sc.Steps = append(sc.Steps, []any{"wret", "any", "ok"})
